@@ -40,6 +40,9 @@ pub enum EnvSel {
 pub struct Trace {
     pub item: Item,
     pub env: EnvSel,
+    /// how a decimal item travelled before the conversion (see Dec::to_bd_via); 0 = built freshly
+    #[serde(default)]
+    pub transport: u8,
 }
 
 pub struct C14;
@@ -75,6 +78,8 @@ const F64_GRID: u64 = 2048 * 8;
 const DEC_GRID: u64 = 801 * 6;
 /// 53 trailing-zero counts x 141 unbiased exponents (-70..=70)
 const TZ_GRID: u64 = 53 * 141 * 3;
+/// 6 word sizes x 112 powers of five x 9 neighbours
+const WORD_GRID: u64 = 6 * 112 * 9;
 const F32_SWEEP_RUNS_THOROUGH: u64 = 65536; // x 65536 patterns = all 2^32
 const F32_SWEEP_RUNS_QUICK: u64 = 1024; // x 1024 patterns, stride 4099
 
@@ -233,7 +238,7 @@ impl C14 {
         let want64 = if m == 0 { 0u64 } else { want64 };
         for env in envs {
             let guard = FloatHookGuard::install(FloatSite::ToF64Powi, *env);
-            let r = catch(|| (d.to_f64(), d.to_ref().to_f64(), if is32 { d.to_f32() } else { None }));
+            let r = catch(|| (d.to_f64(), d.to_ref().to_f64(), if is32 { d.to_f32().and_then(|a| d.to_ref().to_f32().filter(|b| b.to_bits() == a.to_bits())) } else { None }));
             let calls = guard.calls();
             drop(guard);
             obs.steps += calls.len() as u64;
@@ -286,8 +291,31 @@ impl C14 {
     fn check_decimal(&self, item: &Item, value: &Dec, v: &BigDecimal, r: &RefDec, env: &FloatEnv, obs: &mut Obs) -> (Option<Failure>, usize) {
         let guard = FloatHookGuard::install(FloatSite::ToF64Powi, *env);
         let res = catch(|| (v.to_f64(), v.to_ref().to_f64()));
+        // references derived with abs() / neg: |v| and -v must convert like the owned values do
+        let derived = catch(|| (v.to_ref().abs().to_f64(), (-v.to_ref()).to_f64(), v.abs().to_f64(), (-v.clone()).to_f64()));
         let calls = guard.calls();
         drop(guard);
+        match derived {
+            Err(m) => return (Some(fail("F0-no-panic", item, env, format!("to_f64 on abs()/neg of the reference panicked: {}", m))), calls.len()),
+            Ok((ra, rn, oa, on)) => {
+                let same = |x: Option<f64>, y: Option<f64>| match (x, y) {
+                    (Some(a), Some(b)) => a.to_bits() == b.to_bits() || (a == 0.0 && b == 0.0),
+                    (None, None) => true,
+                    _ => false,
+                };
+                // compared only when the seam is not on the path (otherwise each call may see another powi)
+                if calls.is_empty() && (!same(ra, oa) || !same(rn, on)) {
+                    return (Some(fail("F4-forms-agree", item, env, format!("to_ref().abs() / -to_ref() convert to {:?} / {:?} but abs() / neg of the value to {:?} / {:?}", ra, rn, oa, on))), calls.len());
+                }
+                for z in [ra, rn, oa, on] {
+                    match z {
+                        Some(f) if !f.is_nan() => {}
+                        other => return (Some(fail("F3-tolerance", item, env, format!("to_f64 on abs()/neg of the value or its reference returned {:?}", other))), calls.len()),
+                    }
+                }
+                obs.reach("derived_references_converted");
+            }
+        }
         obs.steps += 1 + calls.len() as u64;
         let ncalls = calls.len();
         if let Some(&(n, _, _)) = calls.first() {
@@ -589,6 +617,7 @@ impl Property for C14 {
         f32_sweep_runs(tier)
             + F64_GRID
             + TZ_GRID
+            + WORD_GRID
             + DEC_GRID
             + match tier {
                 Tier::Quick => 150_000,
@@ -603,7 +632,7 @@ impl Property for C14 {
                 Tier::Quick => Item::F32Sweep { start: run * 1024 * 4099, step: 4099, count: 1024 },
                 Tier::Thorough => Item::F32Sweep { start: run * 65536, step: 1, count: 65536 },
             };
-            return Trace { item, env: EnvSel::All };
+            return Trace { item, env: EnvSel::All, transport: 0 };
         }
         // deterministic enumerations after the f32 sweep: every f64 exponent field x 8 mantissa shapes,
         // then d x 10^k for every k in -400..=400 and a few digit strings d
@@ -622,7 +651,7 @@ impl Property for C14 {
                 _ => rng.next_u64() & full,
             };
             let sign = (ef + r) % 2;
-            return Trace { item: Item::F64 { bits: (sign << 63) | (ef << 52) | mant }, env: EnvSel::All };
+            return Trace { item: Item::F64 { bits: (sign << 63) | (ef << 52) | mant }, env: EnvSel::All, transport: 0 };
         }
         let r = r - F64_GRID;
         if r < TZ_GRID {
@@ -639,13 +668,36 @@ impl Property for C14 {
             };
             let mant = if tz >= 52 { 0 } else { (upper | (1u64 << tz)) & !((1u64 << tz) - 1) };
             let ef = (1023 + e) as u64;
-            return Trace { item: Item::F64 { bits: ((r % 2) << 63) | (ef << 52) | mant }, env: EnvSel::All };
+            return Trace { item: Item::F64 { bits: ((r % 2) << 63) | (ef << 52) | mant }, env: EnvSel::All, transport: 0 };
         }
         let r = r - TZ_GRID;
+        if r < WORD_GRID {
+            // floats whose exact decimal integer m * 5^k sits at a machine-word boundary: m ~ W / 5^k for
+            // W = 2^32, 2^64, 2^96, 2^128, 2^192, 2^256 (a native-width product or shift that just overflows)
+            let delta = (r % 9) as i64 - 4;
+            let k = (r / 9) % 112 + 1;
+            let w = [32usize, 64, 96, 128, 192, 256][((r / (9 * 112)) % 6) as usize];
+            let q = (pow2(w as u64) / pow5(k)).to_u64_digits();
+            let m0 = if q.len() == 1 { q[0] as i128 } else { -1 };
+            let m = m0 + delta as i128;
+            if m0 >= 0 && m > 0 && m < (1i128 << 53) {
+                let m = m as u64;
+                // m * 2^-k as an f64: normalise the mantissa
+                let lz = m.leading_zeros() as i64 - 11; // shift to put the top bit at position 52
+                let mant = (m << lz) & ((1u64 << 52) - 1);
+                let e = 52 - lz - k as i64; // value = 1.mant * 2^e
+                if (-1022..=1023).contains(&e) {
+                    let bits = (((r / 3) % 2) << 63) | (((e + 1023) as u64) << 52) | mant;
+                    return Trace { item: Item::F64 { bits }, env: EnvSel::All, transport: 0 };
+                }
+            }
+            return Trace { item: Item::F64 { bits: 0x3FF0_0000_0000_0000 + r }, env: EnvSel::All, transport: 0 };
+        }
+        let r = r - WORD_GRID;
         if r < DEC_GRID {
             let k = (r / 6) as i64 - 400;
             let digits = ["1", "5", "9", "17", "123456789", "99999999999999999999999999"][(r % 6) as usize];
-            return Trace { item: Item::Dec { value: Dec::new((r / 6) % 2 == 1, digits, -k) }, env: EnvSel::All };
+            return Trace { item: Item::Dec { value: Dec::new((r / 6) % 2 == 1, digits, -k) }, env: EnvSel::All, transport: 0 };
         }
         let item = match rng.below(10) {
             0 => {
@@ -663,7 +715,8 @@ impl Property for C14 {
             1..=4 => Item::F64 { bits: gen_f64_bits(rng) },
             _ => Item::Dec { value: gen_decimal(rng) },
         };
-        Trace { item, env: EnvSel::All }
+        let transport = if matches!(item, Item::Dec { .. }) { rng.below(7) as u8 } else { 0 };
+        Trace { item, env: EnvSel::All, transport }
     }
 
     fn execute(&self, t: &Trace, obs: &mut Obs) -> Vec<Failure> {
@@ -719,7 +772,7 @@ impl Property for C14 {
                 obs.reach("f32_sweep_block");
             }
             Item::Dec { value } => {
-                let v = value.to_bd();
+                let v = value.to_bd_via(t.transport);
                 let r = value.to_ref();
                 obs.digest_str(&value.int);
                 obs.digest(&[value.scale as u64]);
@@ -775,7 +828,7 @@ impl Property for C14 {
     fn narrow(&self, t: &Trace, f: &Failure) -> Trace {
         let item: Item = f.focus.get("item").and_then(|v| serde_json::from_value(v.clone()).ok()).unwrap_or_else(|| t.item.clone());
         let env: FloatEnv = f.focus.get("env").and_then(|v| serde_json::from_value(v.clone()).ok()).unwrap_or(FloatEnv::Native);
-        Trace { item, env: EnvSel::One(env) }
+        Trace { item, env: EnvSel::One(env), transport: t.transport }
     }
 
     fn shrink(&self, t: &Trace) -> Vec<Trace> {
@@ -784,13 +837,13 @@ impl Property for C14 {
             match *e {
                 FloatEnv::Native => {}
                 FloatEnv::Ulp(d) => {
-                    out.push(Trace { item: t.item.clone(), env: EnvSel::One(FloatEnv::Native) });
+                    out.push(Trace { item: t.item.clone(), env: EnvSel::One(FloatEnv::Native), transport: t.transport });
                     if d.abs() > 1 {
-                        out.push(Trace { item: t.item.clone(), env: EnvSel::One(FloatEnv::Ulp(d.signum())) });
-                        out.push(Trace { item: t.item.clone(), env: EnvSel::One(FloatEnv::Ulp(d / 2)) });
+                        out.push(Trace { item: t.item.clone(), env: EnvSel::One(FloatEnv::Ulp(d.signum())), transport: t.transport });
+                        out.push(Trace { item: t.item.clone(), env: EnvSel::One(FloatEnv::Ulp(d / 2)), transport: t.transport });
                     }
                 }
-                _ => out.push(Trace { item: t.item.clone(), env: EnvSel::One(FloatEnv::Native) }),
+                _ => out.push(Trace { item: t.item.clone(), env: EnvSel::One(FloatEnv::Native), transport: t.transport }),
             }
         }
         match &t.item {
@@ -804,7 +857,7 @@ impl Property for C14 {
                 }
                 for x in c {
                     if x != b {
-                        out.push(Trace { item: Item::F32 { bits: x }, env: t.env.clone() });
+                        out.push(Trace { item: Item::F32 { bits: x }, env: t.env.clone(), transport: t.transport });
                     }
                 }
             }
@@ -818,14 +871,14 @@ impl Property for C14 {
                 }
                 for x in c {
                     if x != b {
-                        out.push(Trace { item: Item::F64 { bits: x }, env: t.env.clone() });
+                        out.push(Trace { item: Item::F64 { bits: x }, env: t.env.clone(), transport: t.transport });
                     }
                 }
             }
             Item::F32Sweep { .. } => {}
             Item::Dec { value } => {
                 for d in gen::shrink_dec(value) {
-                    out.push(Trace { item: Item::Dec { value: d }, env: t.env.clone() });
+                    out.push(Trace { item: Item::Dec { value: d }, env: t.env.clone(), transport: t.transport });
                 }
             }
         }
